@@ -1,0 +1,129 @@
+//go:build verif
+
+package client
+
+import (
+	"time"
+
+	"github.com/fatedier/frp/client/visitor"
+	"github.com/fatedier/frp/pkg/msg"
+	"github.com/fatedier/frp/pkg/util/wait"
+	"github.com/fatedier/frp/verif"
+)
+
+// Unknown code below the control: the connector (real dialer or virtual
+// streams) and the visitors. Assumed frame (listed): they do not touch the
+// control's own fields or its end-of-session channel.
+//
+//verif:contract (~/client.Connector).Close
+//verif:trusted
+//verif:modifies *
+//verif:preserves H.client.Control. H.client.SessionContext. ChClosed@H.client.Control. H.client.visitor.Manager. ChClosed@H.client.visitor.Manager. H.client.proxy.Manager. H.client.proxy.Wrapper. ChClosed@H.client.proxy.Wrapper.
+func verif_Connector_Close(c Connector) { _ = c.Close() }
+
+// ---------------------------------------------------------------- C14: the client's side of session liveness
+
+const (
+	evGoBackoff = "go:github.com/fatedier/frp/pkg/util/wait.BackoffUntil"
+	evGoUntil   = "go:github.com/fatedier/frp/pkg/util/wait.Until"
+	evNewMgr    = "wait.NewFastBackoffManager"
+)
+
+// heartbeatWorker: with a positive interval a sender runs (base delay = the
+// interval, back-off after authentication failures capped at the interval -
+// option set checked to be sane, so never a tight loop); with a positive
+// interval and timeout a watchdog runs once a second; both end with the
+// session. Without an interval neither runs.
+//
+//verif:contract (*~/client.Control).heartbeatWorker
+//verif:props C14
+func verif_heartbeatWorker(ctl *Control) {
+	interval, timeout := ctl.sessionCtx.Common.Transport.HeartbeatInterval, ctl.sessionCtx.Common.Transport.HeartbeatTimeout
+	verif.Requires(interval <= 1000000, "interval_in_seconds_is_sane")
+	verif.ResetEvents()
+	ctl.heartbeatWorker()
+	verif.Ensures(verif.Called(evGoBackoff) == (interval > 0), "sender_iff_interval_configured")
+	verif.Ensures(verif.Called(evGoUntil) == (interval > 0 && timeout > 0), "watchdog_iff_interval_and_timeout_configured")
+	if interval > 0 {
+		o := verif.NthArg[wait.FastBackoffOptions](evNewMgr, 0, 0)
+		verif.Ensures(wait.VerifSaneOptions(o) && o.Duration == time.Duration(interval)*time.Second && o.MaxDuration == o.Duration, "sender_paced_by_the_interval")
+		verif.Ensures(verif.CalledWith(evGoBackoff, 3, (<-chan struct{})(ctl.doneCh)), "sender_ends_with_the_session")
+	}
+	if interval > 0 && timeout > 0 {
+		verif.Ensures(verif.CalledWith(evGoUntil, 1, time.Second) && verif.CalledWith(evGoUntil, 2, (<-chan struct{})(ctl.doneCh)), "watchdog_every_second_until_the_session_ends")
+	}
+}
+
+// The sender step: a ping goes out only after the authentication setter signed
+// it; a signing error is reported to the back-off loop instead of sending.
+//
+//verif:contract (*~/client.Control).heartbeatWorker$1
+//verif:props C14
+func verif_heartbeat_sender() {
+	verif.ResetEvents()
+	done, err := verif.CallTargetR2[bool, error]()
+	verif.Ensures(!done, "sender_never_stops_by_itself")
+	signed := verif.Called("Setter).SetPing") && verif.RetErr("Setter).SetPing", 0) == nil
+	verif.Ensures(verif.Called("Dispatcher).Send") == signed && (err == nil) == signed, "ping_sent_iff_signed")
+	if signed {
+		verif.Ensures(verif.Same(verif.NthArg[any]("Dispatcher).Send", 0, 1), any(verif.NthArg[*msg.Ping]("Setter).SetPing", 0, 1))), "the_signed_ping_is_what_is_sent")
+	}
+}
+
+// The watchdog step: the session is closed exactly when the last pong is older
+// than the configured timeout (lastPong is refreshed only by NewControl and by
+// handlePong for a pong without error; it only ever holds a time.Time).
+//
+//verif:assume-typeassert (*~/client.Control).heartbeatWorker$2
+//verif:contract (*~/client.Control).heartbeatWorker$2
+//verif:props C14
+func verif_heartbeat_watchdog() {
+	ctl := verif.FreeVar[*Control]("ctl")
+	limit := time.Duration(ctl.sessionCtx.Common.Transport.HeartbeatTimeout) * time.Second
+	verif.ResetEvents()
+	verif.CallTarget()
+	silent := verif.Ret[time.Duration]("time.Since", 0)
+	verif.Ensures(verif.Called("time.Since"), "age_of_the_last_pong_is_measured")
+	verif.Ensures(verif.Called("Control).closeSession") == (silent > limit), "closed_iff_silent_longer_than_the_timeout")
+}
+
+// handlePong: a pong carrying an error ends the session and does not count as
+// a sign of life; any other pong refreshes lastPong.
+//
+//verif:contract (*~/client.Control).handlePong
+//verif:props C14
+func verif_handlePong(ctl *Control, m msg.Message) {
+	p, isPong := m.(*msg.Pong)
+	verif.Requires(isPong, "dispatcher_delivers_registered_type")
+	bad := p.Error != ""
+	verif.ResetEvents()
+	ctl.handlePong(m)
+	verif.Ensures(verif.Called("Control).closeSession") == bad, "error_pong_ends_the_session")
+	verif.Ensures(verif.Called("atomic.Value.Store") == !bad, "only_a_good_pong_is_a_sign_of_life")
+}
+
+// closeSession closes the control connection and the connector.
+//
+//verif:contract (*~/client.Control).closeSession
+//verif:props C14
+func verif_closeSession(ctl *Control) {
+	verif.ResetEvents()
+	ctl.closeSession()
+	verif.Ensures(verif.CalledWith("Conn).Close", 0, ctl.sessionCtx.Conn) && verif.Called("Connector).Close"), "connection_and_connector_closed")
+}
+
+// worker: when the dispatcher ends (read error, see pkg/msg readLoop) the
+// session is closed, both managers are closed - every proxy and visitor is
+// stopped - and only then doneCh is closed, which lets the service log in
+// again.
+//
+//verif:contract (*~/client.Control).worker
+//verif:props C14 C19
+func verif_worker(ctl *Control) {
+	verif.Requires(ctl.doneCh != nil && !verif.Closed(ctl.doneCh) && visitor.VerifManagerOK(ctl.vm), "session_open_managers_built")
+	verif.ResetEvents()
+	ctl.worker()
+	verif.Ensures(verif.Closed(ctl.doneCh), "end_of_session_announced")
+	verif.Ensures(verif.Called("Control).closeSession") && verif.Called("proxy.Manager).Close") && verif.Called("visitor.Manager).Close"), "session_and_managers_closed")
+	verif.Ensures(verif.CalledBefore("proxy.Manager).Close", "close:H.client.Control.doneCh") && verif.CalledBefore("visitor.Manager).Close", "close:H.client.Control.doneCh"), "managers_closed_before_the_announcement")
+}
